@@ -36,6 +36,7 @@ def run(ctx):
     ctx.cov["distinct_nontrivial"] = distinct + d2
     for k, v in list(drift.items()) + list(dr2.items()):
         ctx.note("DRIFT (property kept): %s x%d" % (k, v))
+    ctx.cov["table_rows"] = len(rows) + len(rows2)
     return ctx.finish(rule="P-TABLE: one row per tree size (root, frontier, node file, predicted roots) and per (m, n) (inclusion "
                       "proof, leaf path, consistency proof) printed by TLC after the model-level check; the real tree is driven "
                       "through 5 lives + surplus-file reopen scenarios; distinct_nontrivial = distinct (kind, n, m) queries and "
